@@ -260,7 +260,7 @@ func constOrEmpty(v ssa.Value) string {
 }
 
 func checkC10(c *Ctx, r *Report) {
-	r.Rules = []string{"F12 signed bytes are the stored bytes (deb debsign, deb dpkg-sig, apk, rpm)", "F12 signature member names", "D7 signature type validated before signing", "signer installed iff configured (rpm)", "E4 signing failures are typed and unwrap", "K-key-read keys are read on every signing call", "E4-wrap errors formatted on signing paths stay in the chain (%w)", "K-settings-ro no packager stores into a signature section", "key-S-get-self Config.Get copies each key id from itself (imported from C13)", "pass-F15-passphrase passphrase precedence per format (imported from C16)", "K-signer-entity the key handed to the OpenPGP signer is the entity the key reader returned (its primary key, no substitute)", "E4-fresh a signing failure returned is built where the failure happens (no failure fished out of the chain with errors.As)", "F12-apk-name-verbatim the apk key name is used as written"}
+	r.Rules = []string{"F12 signed bytes are the stored bytes (deb debsign, deb dpkg-sig, apk, rpm)", "F12 signature member names", "D7 signature type validated before signing", "signer installed iff configured (rpm)", "E4 signing failures are typed and unwrap", "K-key-read keys are read on every signing call", "E4-wrap errors formatted on signing paths stay in the chain (%w)", "K-settings-ro no packager stores into a signature section", "key-S-get-self Config.Get copies each key id from itself (imported from C13)", "pass-F15-passphrase passphrase precedence per format (imported from C16)", "K-signer-entity the key handed to the OpenPGP signer is the entity the key reader returned (its primary key, no substitute)", "K-armor-whole the choice of the armored key parser does not hinge on how the file begins", "E4-fresh a signing failure returned is built where the failure happens (no failure fished out of the chain with errors.As)", "F12-apk-name-verbatim the apk key name is used as written"}
 	r.Explanation = "Value-identity and typed-error rules over go/ssa. (F12) deb: the three byte slices handed to the signing function are the very SSA values written as the bodies of the ar members debian-binary, control.tar.gz and the data member, and they reach io.MultiReader in that order; the signature member is named \"_gpg\"+<type returned by the signer>; the dpkg-sig manifest measures each of the same three values (md5, sha1 and size of one parameter) and names each line with the name the member is stored under; apk: the digest handed to the signer is the value returned by the call that wrote the control segment, and the segments are concatenated signature, control, data with those same buffers; rpm: a signer is installed exactly behind the key-file / callback tests and the callback adapter hands the data through unchanged. (D7) with an invalid debsign type no signer call is live. (E4) every function through which a signing error leaves a packager — including the closures handed to rpmpack — returns either nil or a *nfpm.ErrSigningFailure on every path, and that type has an Unwrap() error method returning the wrapped error. Cryptographic validity is not analysed."
 	r.Explanation += " (K-key-read) every signing entry point of internal/sign must-reaches the read of the key file. (E4-wrap) on the signing paths every fmt.Errorf has at least as many %w verbs as error arguments."
 	r.Explanation += " (K-settings-ro) no store in a packager package is rooted at a field of a signature section of the Info. (key-S-get-self) imported from C13."
@@ -1228,6 +1228,7 @@ func checkTypedFailures(c *Ctx, r *Report, pa *provAnalysis) {
 	checkSignerReaderOnce(c, r, scopeW)
 	checkPGPConfigFields(c, r)
 	checkSignerIsTheKeyRead(c, r)
+	checkArmorDecision(c, r)
 	checkFailureBuiltFresh(c, r)
 	// the signature-member write failure in deb.Package is typed as well
 	if pk := c.PackagerByFormat("deb"); pk != nil {
@@ -1598,4 +1599,49 @@ func checkFailureBuiltFresh(c *Ctx, r *Report) {
 	if n == 0 {
 		r.Pass("E4-fresh", "no signing failure is extracted from an error chain in the module", "-", "errors.As with a *ErrSigningFailure target: none")
 	}
+}
+
+// checkArmorDecision (K-armor-whole): "key kinds (armored/binary ...)": an
+// armored key file may carry text in front of the armor (a comment line, a
+// blank line from a secret store); the armor decoder skips it. Whatever decides
+// that a file goes to the armored parser therefore looks at more than its
+// beginning: a prefix test of the content in that decision sends such files to
+// the binary parser, which refuses them.
+func checkArmorDecision(c *Ctx, r *Report) {
+	pa := newProv(c)
+	n := 0
+	for _, fn := range c.ModFuncs {
+		if c.funcPkgPath(fn) != modPath+"/internal/sign" {
+			continue
+		}
+		forEachInstr(fn, func(in ssa.Instruction) {
+			call, ok := in.(*ssa.Call)
+			if !ok {
+				return
+			}
+			o := calleeObj(call)
+			if o == nil || o.Name() != "ReadArmoredKeyRing" {
+				return
+			}
+			n++
+			prefix := ""
+			for b := call.Block(); b != nil; b = b.Idom() {
+				if len(b.Preds) != 1 {
+					continue
+				}
+				ifi, isIf := b.Preds[0].Instrs[len(b.Preds[0].Instrs)-1].(*ssa.If)
+				if !isIf {
+					continue
+				}
+				for _, a := range pa.Of(ifi.Cond).list() {
+					if a == "call:bytes.HasPrefix" || a == "call:strings.HasPrefix" || a == "call:bytes.Index" || a == "call:strings.Index" {
+						prefix = a
+					}
+				}
+			}
+			r.Check(prefix == "", "K-armor-whole", fmt.Sprintf("%s: the armored key parser#%d is chosen by a test of the whole content", c.funcKey(fn), n), c.instrPos(call),
+				"the decision that a key file is armored passes through "+strings.TrimPrefix(prefix, "call:")+": an armored key with anything in front of the armor header (which the decoder would skip) is handed to the binary parser and signing is refused")
+		})
+	}
+	r.Floor("K-armor-whole", n, 1)
 }
